@@ -91,7 +91,11 @@ pub mod tokio_shim {
             Some(b) => {
                 let (tx, rx) = futures::channel::oneshot::channel();
                 b.spawn(Box::pin(async move {
-                    let _ = tx.send(future.await);
+                    let out = future.await;
+                    // the task has produced its result (an actor loop has sent its stop
+                    // notification) but the join handle is not complete yet
+                    sync_point().await;
+                    let _ = tx.send(out);
                 }));
                 task::JoinHandle::Virt(rx)
             }
